@@ -54,6 +54,11 @@ type Order struct {
 	Defs    map[string]string `json:"defs"`    // local variable := expression
 	Flags   map[string][]G    `json:"flags"`   // local variable = true under these conditions
 	Source  string            `json:"source"`  // "ast" or "builtin: <why>"
+	// FreshOnUnusedWAL: node/raft.go startRaft treats an existing wal that holds no hard state and no
+	// entries as a first start (StartNode with the configured peers) instead of RestartNode. Read
+	// from the source: an if-statement in startRaft whose condition mentions oldwal together with a
+	// call, and whose body assigns oldwal = false.
+	FreshOnUnusedWAL bool `json:"fresh_on_unused_wal"`
 }
 
 // BuiltinOrder is node/raft.go as of the verified tree (used when extraction fails).
@@ -70,7 +75,7 @@ func BuiltinOrder(why string) Order {
 		Persist: []string{"psnap", "pents", "phs"},
 		Defs:    map[string]string{"sendBeforePersist": "isMeNewLeader && raft.IsEmptyHardState(rd.HardState)"},
 		Flags:   map[string][]G{"persistedEarly": {{Expr: "raft.IsEmptySnap(rd.Snapshot) && shouldPersistBeforeApply(&rd)"}}},
-		Source:  "builtin: " + why}
+		Source:  "builtin: " + why, FreshOnUnusedWAL: true}
 }
 
 func (o Order) String() string {
@@ -102,7 +107,8 @@ func (o Order) String() string {
 		d = append(d, x)
 	}
 	sortStrings(d)
-	return strings.Join(b, " ") + " | " + strings.Join(o.Persist, ",") + " | " + strings.Join(d, "; ") + " | " + o.Source
+	return strings.Join(b, " ") + " | " + strings.Join(o.Persist, ",") + " | " + strings.Join(d, "; ") + " | " + o.Source +
+		fmt.Sprintf(" | restart: fresh-on-unused-wal=%v", o.FreshOnUnusedWAL)
 }
 
 func sortStrings(a []string) {
@@ -438,6 +444,27 @@ func ExtractOrder(repo string) Order {
 		} else {
 			o.Persist = append(o.Persist, p)
 		}
+	}
+	// start path: is an unused wal started as a new node?
+	if sr := findFunc(f, "raftNode", "startRaft"); sr != nil {
+		ast.Inspect(sr.Body, func(n ast.Node) bool {
+			is, ok := n.(*ast.IfStmt)
+			if !ok {
+				return true
+			}
+			c := exprString(fset, is.Cond)
+			if !containsIdent(c, "oldwal") || !strings.Contains(c, "(") {
+				return true
+			}
+			for _, st := range is.Body.List {
+				if as, ok := st.(*ast.AssignStmt); ok && len(as.Lhs) == 1 && len(as.Rhs) == 1 {
+					if id, ok := as.Lhs[0].(*ast.Ident); ok && id.Name == "oldwal" && exprString(fset, as.Rhs[0]) == "false" {
+						o.FreshOnUnusedWAL = true
+					}
+				}
+			}
+			return true
+		})
 	}
 	need := map[string]bool{"persist": false, "publish": false, "send": false, "wait": false, "advance": false}
 	for _, t := range o.Toks {
